@@ -1,21 +1,19 @@
 #!/bin/bash
-# valgrind (memcheck) over a few single simulated runs of the plain binary: uninitialised values / invalid accesses
-# in engine code that ASan/UBSan do not see.  usage: valgrind_replays.sh <seed> <n>
+# valgrind (memcheck) over single simulated runs of the 'vg' build (g++ -O1, no -march=native): uninitialised values /
+# invalid accesses in engine code that ASan/UBSan do not see.  usage: valgrind_replays.sh <seed> <n>
+# Sessions whose game is longer than 780 plies are skipped: that is the recorded open finding (known_findings.tsv).
 cd "$(dirname "$0")"
 SEED="${1:-1}"; N="${2:-20}"
-rc=0
+list=""
 for i in $(seq 1 "$N"); do
   rs=$(( (SEED * 1000003 + i * 7919) % 2147483647 ))
-  out=$(VSIM_INPROC=1 valgrind -q --error-exitcode=97 --trace-children=yes --child-silent-after-fork=no ./build/plain/vsim --prop C10 --show "$rs" 2>&1)
-  st=$?
-  if echo "$out" | grep -q "== .*\(uninitialised\|Invalid read\|Invalid write\)"; then
-    # the 800-ply overflow is a recorded finding; anything else is a violation
-    if echo "$out" | grep -q "do_move"; then echo "KNOWN-FINDING: property=C10 valgrind report in Position::do_move (history overflow) seed $rs"; continue; fi
-    mkdir -p replays/C10
-    echo "$out" | head -60 > "replays/C10/valgrind_$rs.txt"
-    echo "violation class=valgrind seed=$rs"; echo "$out" | grep -A12 "== .*\(uninitialised\|Invalid\)" | head -40
-    echo "VIOLATION property=C10 replay=$(pwd)/replays/C10/valgrind_$rs.txt"
-    rc=1
-  fi
+  list="$list C10 $rs C05 $rs"
 done
-exit $rc
+out=$(echo $list | xargs -P 16 -n 2 ./tools/vg_one.sh)
+echo "$out" | grep -v "^VG-"
+ok=$(echo "$out" | grep -c "^VG-OK"); sk=$(echo "$out" | grep -c "^VG-SKIP")
+echo "valgrind: $ok simulated runs clean, $sk skipped (known finding: > 780 plies)"
+echo "{\"valgrind_runs_clean\": $ok, \"valgrind_runs_skipped\": $sk}" > build/ev/valgrind.json
+if echo "$out" | grep -q "^VIOLATION"; then exit 1; fi
+[ "$ok" -gt 0 ] || exit 2
+exit 0
